@@ -195,7 +195,7 @@ pub fn exercise_frames(bytes: &[u8], si: Option<&Streaminfo>, out: &mut Outcome)
     let len = bytes.len();
     let mut t = Tracker { out, len, deep: false };
     t.run("FlacStreamReader::read", || {
-        let mut rd = FlacStreamReader::new(Cursor::new(bytes));
+        let mut rd = FlacStreamReader::new(crate::iow::SplitBuf::new(bytes.to_vec(), vec![]));
         let mut n = 0u64;
         let mut calls = 0usize;
         loop {
